@@ -325,3 +325,24 @@ func VH_C13_v2_env_neutral() {
 	vrt.Assert(em.Score() == em.TemporalMetrics().Score(), "all environmental metrics Not Defined: environmental score equals temporal score")
 	vrt.Assert(em.Severity() == em.TemporalMetrics().Severity(), "all environmental metrics Not Defined: same severity")
 }
+
+// C13: Target Distribution None -> the environmental score is 0, for every canonical v2
+// environmental vector (729 base x (100 temporal + absent) x 6 CDP x 4^3 requirements); exported API only.
+func VH_C13_v2_td_none() {
+	vec, _, _, _, _, _, _ := pickBase()
+	tp := vrt.Pick("tgroup", "absent", "present")
+	tsuf, _, _, _ := pickTemporal()
+	if tp == "present" {
+		vec = vec + tsuf
+	}
+	cdp := vrt.Pick("CDP", "ND", "N", "L", "LM", "MH", "H")
+	cr := vrt.Pick("CR", "ND", "L", "M", "H")
+	ir := vrt.Pick("IR", "ND", "L", "M", "H")
+	ar := vrt.Pick("AR", "ND", "L", "M", "H")
+	em, err := NewEnvironmental().Decode(vec + "/CDP:" + cdp + "/TD:N/CR:" + cr + "/IR:" + ir + "/AR:" + ar)
+	vrt.Assert(err == nil, "accepted")
+	if err != nil {
+		return
+	}
+	vrt.Assert(em.Score() == 0, "Target Distribution None: the environmental score is 0")
+}
